@@ -142,6 +142,8 @@ package config
 //@     && (in.ExecuteHookOnEvents == nil && in.WatchEventTypes != nil ==> sameseq(out.Monitor.EventTypes, in.WatchEventTypes))
 //@     && (in.ExecuteHookOnEvents == nil && in.WatchEventTypes == nil ==> len(out.Monitor.EventTypes) == 3 && out.Monitor.EventTypes[0] == kemtypes.WatchEventAdded && out.Monitor.EventTypes[1] == kemtypes.WatchEventModified && out.Monitor.EventTypes[2] == kemtypes.WatchEventDeleted)
 
+// the declared snapshot names stay first, in their order (names of the group may follow)
+//@ pred InclOK(out []string, in []string) := len(out) >= len(in) && forall(j, 0, len(in), out[j] == in[j])
 //@ pred K8sAll(outs []htypes.OnKubernetesEventConfig, ins []OnKubernetesEventConfigV1) := len(outs) == len(ins) && forall(i, 0, len(outs), K8sOK(outs[i], ins[i]))
 
 //@ pred SchOK(out htypes.ScheduleConfig, in ScheduleConfigV1) := out.BindingName == ite(in.Name != "", in.Name, "schedule") && out.Queue == ite(in.Queue == "", "main", in.Queue)
@@ -156,48 +158,63 @@ package config
 //@   modifies fields(c), allelems(htypes.OnKubernetesEventConfig), allelems(htypes.ScheduleConfig), allelems(htypes.ValidatingConfig), allelems(htypes.MutatingConfig), allelems(htypes.ConversionConfig), allelems(string), allelems(v1.ValidatingWebhook)
 //@   ensures [kubernetes/count]    result == nil ==> len(c.OnKubernetesEvents) == len(cv1.OnKubernetesEvent)
 //@   ensures [kubernetes/defaults] result == nil ==> forall(i, 0, len(c.OnKubernetesEvents), K8sOK(c.OnKubernetesEvents[i], cv1.OnKubernetesEvent[i]))
+//@   ensures [kubernetes/declared-snapshots-first] result == nil ==> forall(i, 0, len(c.OnKubernetesEvents), InclOK(c.OnKubernetesEvents[i].IncludeSnapshotsFrom, cv1.OnKubernetesEvent[i].IncludeSnapshotsFrom))
 //@   ensures [schedules/count]    result == nil ==> len(c.Schedules) == len(cv1.Schedule)
 //@   ensures [schedules/defaults] result == nil ==> forall(i, 0, len(c.Schedules), SchOK(c.Schedules[i], cv1.Schedule[i]))
 //@   loop 1
 //@     invariant 0 <= iter() && iter() <= len(cv1.OnKubernetesEvent) && len(c.OnKubernetesEvents) == iter()
 //@     invariant forall(i, 0, iter(), K8sOK(c.OnKubernetesEvents[i], cv1.OnKubernetesEvent[i]))
+//@     invariant [incl] forall(i, 0, iter(), c.OnKubernetesEvents[i].IncludeSnapshotsFrom == cv1.OnKubernetesEvent[i].IncludeSnapshotsFrom)
 //@   loop 2
 //@     invariant [k8s] K8sAll(c.OnKubernetesEvents, cv1.OnKubernetesEvent)
+//@     invariant [incl] forall(i, 0, len(c.OnKubernetesEvents), c.OnKubernetesEvents[i].IncludeSnapshotsFrom == cv1.OnKubernetesEvent[i].IncludeSnapshotsFrom)
 //@   loop 3
 //@     invariant [k8s] K8sAll(c.OnKubernetesEvents, cv1.OnKubernetesEvent)
+//@     invariant [incl] forall(i, 0, len(c.OnKubernetesEvents), c.OnKubernetesEvents[i].IncludeSnapshotsFrom == cv1.OnKubernetesEvent[i].IncludeSnapshotsFrom)
 //@     invariant 0 <= iter() && iter() <= len(cv1.Schedule) && len(c.Schedules) == iter()
 //@     invariant forall(i, 0, iter(), SchOK(c.Schedules[i], cv1.Schedule[i]))
 //@   loop 4
 //@     invariant [k8s] K8sAll(c.OnKubernetesEvents, cv1.OnKubernetesEvent)
+//@     invariant [incl] forall(i, 0, len(c.OnKubernetesEvents), c.OnKubernetesEvents[i].IncludeSnapshotsFrom == cv1.OnKubernetesEvent[i].IncludeSnapshotsFrom)
 //@     invariant [sch] SchAll(c.Schedules, cv1.Schedule)
 //@   loop 5
 //@     invariant [k8s] K8sAll(c.OnKubernetesEvents, cv1.OnKubernetesEvent)
+//@     invariant [incl] forall(i, 0, len(c.OnKubernetesEvents), c.OnKubernetesEvents[i].IncludeSnapshotsFrom == cv1.OnKubernetesEvent[i].IncludeSnapshotsFrom)
 //@     invariant [sch] SchAll(c.Schedules, cv1.Schedule)
 //@   loop 6
 //@     invariant [k8s] K8sAll(c.OnKubernetesEvents, cv1.OnKubernetesEvent)
+//@     invariant [incl] forall(i, 0, len(c.OnKubernetesEvents), c.OnKubernetesEvents[i].IncludeSnapshotsFrom == cv1.OnKubernetesEvent[i].IncludeSnapshotsFrom)
 //@     invariant [sch] SchAll(c.Schedules, cv1.Schedule)
 //@   loop 7
 //@     invariant [k8s] K8sAll(c.OnKubernetesEvents, cv1.OnKubernetesEvent)
+//@     invariant [incl] forall(i, 0, len(c.OnKubernetesEvents), c.OnKubernetesEvents[i].IncludeSnapshotsFrom == cv1.OnKubernetesEvent[i].IncludeSnapshotsFrom)
 //@     invariant [sch] SchAll(c.Schedules, cv1.Schedule)
 //@   loop 8
 //@     invariant [k8s] K8sAll(c.OnKubernetesEvents, cv1.OnKubernetesEvent)
+//@     invariant [incl] forall(i, 0, len(c.OnKubernetesEvents), c.OnKubernetesEvents[i].IncludeSnapshotsFrom == cv1.OnKubernetesEvent[i].IncludeSnapshotsFrom)
 //@     invariant [sch] SchAll(c.Schedules, cv1.Schedule)
 //@   loop 9
 //@     invariant [k8s] K8sAll(c.OnKubernetesEvents, cv1.OnKubernetesEvent)
 //@     invariant [sch] SchAll(c.Schedules, cv1.Schedule)
 //@     invariant 0 <= iter() && iter() <= len(c.OnKubernetesEvents) && len(newKubeEvents) == iter() && fresh(newKubeEvents) && base(newKubeEvents) != base(c.OnKubernetesEvents)
 //@     invariant forall(i, 0, iter(), K8sOK(newKubeEvents[i], cv1.OnKubernetesEvent[i]))
+//@     invariant [incl] forall(i, 0, len(c.OnKubernetesEvents), c.OnKubernetesEvents[i].IncludeSnapshotsFrom == cv1.OnKubernetesEvent[i].IncludeSnapshotsFrom)
+//@     invariant [incl-new] forall(i, 0, iter(), InclOK(newKubeEvents[i].IncludeSnapshotsFrom, cv1.OnKubernetesEvent[i].IncludeSnapshotsFrom))
 //@   loop 10
 //@     invariant [k8s] K8sAll(c.OnKubernetesEvents, cv1.OnKubernetesEvent)
+//@     invariant [incl] forall(i, 0, len(c.OnKubernetesEvents), InclOK(c.OnKubernetesEvents[i].IncludeSnapshotsFrom, cv1.OnKubernetesEvent[i].IncludeSnapshotsFrom))
 //@     invariant [sch] SchAll(c.Schedules, cv1.Schedule)
 //@     invariant 0 <= iter() && iter() <= len(c.Schedules) && len(newSchedules) == iter() && fresh(newSchedules) && base(newSchedules) != base(c.Schedules)
 //@     invariant forall(i, 0, iter(), SchOK(newSchedules[i], cv1.Schedule[i]))
 //@   loop 11
 //@     invariant [k8s] K8sAll(c.OnKubernetesEvents, cv1.OnKubernetesEvent)
+//@     invariant [incl] forall(i, 0, len(c.OnKubernetesEvents), InclOK(c.OnKubernetesEvents[i].IncludeSnapshotsFrom, cv1.OnKubernetesEvent[i].IncludeSnapshotsFrom))
 //@     invariant [sch] SchAll(c.Schedules, cv1.Schedule)
 //@   loop 12
 //@     invariant [k8s] K8sAll(c.OnKubernetesEvents, cv1.OnKubernetesEvent)
+//@     invariant [incl] forall(i, 0, len(c.OnKubernetesEvents), InclOK(c.OnKubernetesEvents[i].IncludeSnapshotsFrom, cv1.OnKubernetesEvent[i].IncludeSnapshotsFrom))
 //@     invariant [sch] SchAll(c.Schedules, cv1.Schedule)
 //@   loop 13
 //@     invariant [k8s] K8sAll(c.OnKubernetesEvents, cv1.OnKubernetesEvent)
+//@     invariant [incl] forall(i, 0, len(c.OnKubernetesEvents), InclOK(c.OnKubernetesEvents[i].IncludeSnapshotsFrom, cv1.OnKubernetesEvent[i].IncludeSnapshotsFrom))
 //@     invariant [sch] SchAll(c.Schedules, cv1.Schedule)
